@@ -24,6 +24,11 @@ type negCase struct {
 	Target  string // -gen value
 	Invalid bool   // definitely invalid by construction: exit 0 is a violation
 	Note    string
+	// multi-file invocations of the CLI: every file argument in order (nil =
+	// Root only) and, for all-valid invocations, what each of them must emit
+	Roots       []string
+	MustSucceed bool     // every input is valid: exit 0 and ExpectFiles present
+	ExpectFiles []string // paths relative to -out
 }
 
 // small valid programs that the mutation operators start from
@@ -416,6 +421,76 @@ func genNegatives(rng *rand.Rand, n int, thorough bool) []*negCase {
 	add(&negCase{Class: "missing_root_file", Files: map[string]string{"other.frugal": ""}, Root: "not_there.frugal", Invalid: true})
 	add(&negCase{Class: "include_bad_extension", Files: map[string]string{"r.frugal": "include \"x.txt\"\n", "x.txt": ""}, Root: "r.frugal", Invalid: true})
 
+	// 3b. one invocation, several files: `frugal -gen X a.frugal b.frugal ...`
+	// mixing invalid and valid inputs in every order; any invalid input must
+	// give a non-zero exit status, all valid inputs exit 0 and output for each
+	{
+		good := map[string]string{
+			"good_one.frugal":   "struct GoodOne { 1: i32 a }\n",
+			"good_two.frugal":   "enum GoodTwo { A, B }\nstruct GoodTwoS { 1: GoodTwo e }\n",
+			"good_three.frugal": "struct GoodThree { 1: string s }\nservice GoodThreeSvc { void ping() }\n",
+		}
+		bad := map[string]string{
+			"bad_unknown_type.frugal": "struct BadOne { 1: NoSuchTypeZz a }\n",
+			"bad_syntax.frugal":       "struct BadTwo { 1: i32 a\n",
+			"bad_dup_id.frugal":       "struct BadThree { 1: i32 a, 1: i32 b }\n",
+			"bad_garbage.frugal":      "\xfe\x00\x01 not idl at all {{{\n",
+		}
+		files := map[string]string{}
+		for n, t := range good {
+			files[n] = t
+		}
+		for n, t := range bad {
+			files[n] = t
+		}
+		g1, g2, g3 := "good_one.frugal", "good_two.frugal", "good_three.frugal"
+		orders := [][]string{
+			{"bad_unknown_type.frugal", g1}, {g1, "bad_unknown_type.frugal"},
+			{"bad_syntax.frugal", g1}, {g1, "bad_syntax.frugal"},
+			{"bad_dup_id.frugal", g2}, {g2, "bad_dup_id.frugal"},
+			{"bad_garbage.frugal", g3}, {g3, "bad_garbage.frugal"},
+			{"zz_not_there.frugal", g1}, {g1, "zz_not_there.frugal"},
+			{"bad_unknown_type.frugal", "bad_syntax.frugal", g1}, {"bad_syntax.frugal", "bad_garbage.frugal", g2, g3},
+			{g1, "bad_dup_id.frugal", g2}, {g1, g2, "bad_unknown_type.frugal"}, {g1, "bad_syntax.frugal", g2, "bad_dup_id.frugal", g3},
+			{"bad_unknown_type.frugal", "bad_syntax.frugal"},
+		}
+		for oi, o := range orders {
+			tgts := all
+			if !thorough {
+				tgts = []string{all[oi%len(all)], all[(oi+3)%len(all)]}
+			}
+			for _, t := range tgts {
+				add(&negCase{Class: "multi_file_with_invalid_input", Files: files, Root: o[0], Roots: o, Target: t, Invalid: true, Note: "file arguments in order: " + strings.Join(o, " ")})
+			}
+		}
+		expect := func(t string, names []string) []string {
+			var out []string
+			for _, n := range names {
+				b := strings.TrimSuffix(n, ".frugal")
+				switch strings.SplitN(t, ":", 2)[0] {
+				case "go":
+					out = append(out, b+"/f_types.go")
+				case "py":
+					out = append(out, b+"/ttypes.py")
+				case "dart":
+					out = append(out, b+"/pubspec.yaml")
+				case "html":
+					out = append(out, b+".html")
+				case "json":
+					out = []string{"frugal.json"}
+				case "java":
+					out = append(out, map[string]string{"good_one": "GoodOne.java", "good_two": "GoodTwoS.java", "good_three": "GoodThree.java"}[b])
+				}
+			}
+			return out
+		}
+		for _, o := range [][]string{{g1, g2}, {g2, g1}, {g1, g2, g3}, {g3, g1, g2}} {
+			for _, t := range all {
+				add(&negCase{Class: "multi_file_all_valid", Files: good, Root: o[0], Roots: o, Target: t, MustSucceed: true, ExpectFiles: expect(t, o), Note: "file arguments in order: " + strings.Join(o, " ")})
+			}
+		}
+	}
+
 	// 4. garbage
 	ngarb := 60
 	if thorough {
@@ -523,7 +598,11 @@ func (c *c11) runNegative(nc *negCase, st *negStats) {
 		os.WriteFile(p, []byte(s), 0o644)
 	}
 	out := filepath.Join(dir, "zz_out")
-	args := []string{"-gen", nc.Target, "-out", out, nc.Root}
+	roots := nc.Roots
+	if roots == nil {
+		roots = []string{nc.Root}
+	}
+	args := append([]string{"-gen", nc.Target, "-out", out}, roots...)
 	r := c.runCompiler(nc.Class, dir, 20*time.Second, args...)
 	run.Eval(1)
 	text := r.Stdout + r.Stderr
@@ -553,7 +632,7 @@ func (c *c11) runNegative(nc *negCase, st *negStats) {
 				files[n] = map[string]interface{}{"hex": hex.EncodeToString([]byte(s)), "text": s}
 			}
 		}
-		return map[string]interface{}{"class": nc.Class, "input_index": nc.I, "files": files, "root_file": nc.Root, "args": []string{"-gen", nc.Target, "-out", "zz_out", nc.Root}, "note": nc.Note,
+		return map[string]interface{}{"class": nc.Class, "input_index": nc.I, "files": files, "root_file": nc.Root, "args": append([]string{"-gen", nc.Target, "-out", "zz_out"}, roots...), "note": nc.Note,
 			"exit": exit, "output": clip(reAnsi.ReplaceAllString(text, ""), 1500)}
 	}
 	kind := crashKind(text, r.ExitCode, r.Signaled)
@@ -565,6 +644,15 @@ func (c *c11) runNegative(nc *negCase, st *negStats) {
 		c.crashSeen[kind+" "+topFrame(text)]++
 		c.mu.Unlock()
 		c.violation("C11:crash:"+kind+":"+nc.Class, fmt.Sprintf("Go runtime failure instead of a diagnostic (-gen %s, exit %s, top compiler frame %s): %s", nc.Target, exit, topFrame(text), clip(firstLines(text, 2), 200)), witness())
+	case nc.MustSucceed && r.ExitCode != 0:
+		c.violation("C11:valid-input-rejected:"+nc.Class, fmt.Sprintf("every file of the invocation is valid but the exit status is %s (-gen %s; %s): %s", exit, nc.Target, nc.Note, clip(firstLines(text, 2), 200)), witness())
+	case nc.MustSucceed:
+		for _, f := range nc.ExpectFiles {
+			if _, err := os.Stat(filepath.Join(out, f)); err != nil {
+				c.violation("C11:valid-input-without-output:"+nc.Class, fmt.Sprintf("exit status 0 but %s was not emitted (-gen %s; %s)", f, nc.Target, nc.Note), witness())
+				break
+			}
+		}
 	case r.ExitCode == 0 && nc.Invalid:
 		c.violation("C11:invalid-input-accepted:"+nc.Class, fmt.Sprintf("input that is invalid by construction compiled with exit status 0 (-gen %s)", nc.Target), witness())
 	case r.ExitCode == 0 && nc.Target == "json":
